@@ -63,6 +63,14 @@ func c11Init() {
 		if err := failpoint.Enable("tikvclient/fastBackoffBySkipSleep", `return`); err != nil {
 			panic(err)
 		}
+		// The mock stores are always alive, but the client's liveness probe (run
+		// after a send failure, e.g. one caused by the caller's expired
+		// deadline) would dial the address "store1" over real gRPC and declare
+		// the store unreachable for ever.  Answer it the way the existing
+		// rawkv tests do.
+		if err := failpoint.Enable("tikvclient/injectLiveness", `return("reachable")`); err != nil {
+			panic(err)
+		}
 	})
 }
 
@@ -459,6 +467,128 @@ func (e *c11Env) storeDump(cf string) map[string][]byte {
 	return out
 }
 
+// ------------------------------------------------------------------ per-call context
+
+// c11CtxPlan says what happens to the context of one client call.
+type c11CtxPlan struct {
+	Kind    string `json:"kind"`    // "" / "bg": stays live; "cancel-after": cancelled right after the call returned; "cancel-at" / "deadline-at": ends during the call
+	At      int    `json:"at"`      // ...at the At-th RPC (0-based) of the call
+	Deliver bool   `json:"deliver"` // true: that RPC is executed and answered, the context has ended when the answer arrives; false: it is not delivered
+}
+
+func (p c11CtxPlan) name() string {
+	if p.Kind == "" {
+		return "bg"
+	}
+	return p.Kind
+}
+
+func (p c11CtxPlan) during() bool { return p.Kind == "cancel-at" || p.Kind == "deadline-at" }
+
+type c11CallKey struct{}
+
+// c11Ctx is the context of one client call.  It ends when the harness says so
+// (a logical point: the n-th RPC of the call), either as a cancellation or as
+// an expired deadline (Err() == context.DeadlineExceeded), never by a timer.
+// The hook finds the call's state through Value(c11CallKey{}) on the derived
+// contexts the client passes down, so calls of concurrent goroutines over one
+// client are told apart.
+type c11Ctx struct {
+	plan c11CtxPlan
+	n    atomic.Int32 // RPCs of this call seen by the hook
+
+	mu       sync.Mutex
+	done     chan struct{}
+	err      error
+	deadline time.Time
+	after    map[int]func()
+	afterN   int
+	endedAt  int // RPC index at which the plan ended the context (-1: not by the plan)
+}
+
+func c11NewCtx(plan c11CtxPlan) *c11Ctx {
+	c := &c11Ctx{plan: plan, done: make(chan struct{}), endedAt: -1, after: map[int]func(){}}
+	if plan.Kind == "deadline-at" {
+		c.deadline = time.Now().Add(time.Hour) // moved to "now" when the harness lets it expire
+	}
+	return c
+}
+
+func (c *c11Ctx) Deadline() (time.Time, bool) {
+	c.mu.Lock()
+	defer c.mu.Unlock()
+	return c.deadline, !c.deadline.IsZero()
+}
+func (c *c11Ctx) Done() <-chan struct{} { return c.done }
+func (c *c11Ctx) Err() error {
+	c.mu.Lock()
+	defer c.mu.Unlock()
+	return c.err
+}
+func (c *c11Ctx) Value(key any) any {
+	if _, ok := key.(c11CallKey); ok {
+		return c
+	}
+	return nil
+}
+
+// AfterFunc lets derived standard contexts be cancelled synchronously when
+// this one ends (context.WithCancel/WithTimeout use it when the parent has it).
+func (c *c11Ctx) AfterFunc(f func()) (stop func() bool) {
+	c.mu.Lock()
+	if c.err != nil {
+		c.mu.Unlock()
+		go f()
+		return func() bool { return false }
+	}
+	id := c.afterN
+	c.afterN++
+	c.after[id] = f
+	c.mu.Unlock()
+	return func() bool {
+		c.mu.Lock()
+		defer c.mu.Unlock()
+		_, ok := c.after[id]
+		delete(c.after, id)
+		return ok
+	}
+}
+
+// end ends the context (idempotent); atRPC >= 0 records that the plan did it.
+func (c *c11Ctx) end(err error, atRPC int) {
+	c.mu.Lock()
+	if c.err != nil {
+		c.mu.Unlock()
+		return
+	}
+	c.err = err
+	if err == context.DeadlineExceeded {
+		c.deadline = time.Now()
+	}
+	c.endedAt = atRPC
+	fs := c.after
+	c.after = map[int]func(){}
+	close(c.done)
+	c.mu.Unlock()
+	for _, f := range fs {
+		f()
+	}
+}
+
+func (c *c11Ctx) endByPlan(atRPC int) {
+	if c.plan.Kind == "deadline-at" {
+		c.end(context.DeadlineExceeded, atRPC)
+	} else {
+		c.end(context.Canceled, atRPC)
+	}
+}
+
+func (c *c11Ctx) endedDuring() (bool, int) {
+	c.mu.Lock()
+	defer c.mu.Unlock()
+	return c.endedAt >= 0, c.endedAt
+}
+
 // ------------------------------------------------------------------ RPC hook
 
 type c11RPC struct {
@@ -476,7 +606,7 @@ type c11RPC struct {
 	// requests; beyond it the hook cancels the call's context and fails requests
 	armed      bool
 	overBudget bool
-	cancel     context.CancelFunc
+	call       *c11Ctx
 }
 
 const c11RequestBudget = 1000
@@ -484,11 +614,11 @@ const c11RequestBudget = 1000
 var _ client.Client = (*c11RPC)(nil)
 
 // arm starts a monitored client call; the returned context must be used for it.
-func (h *c11RPC) arm(script []c11Act) context.Context {
-	ctx, cancel := context.WithCancel(context.Background())
+func (h *c11RPC) arm(script []c11Act, plan c11CtxPlan) *c11Ctx {
+	ctx := c11NewCtx(plan)
 	h.mu.Lock()
 	h.script, h.n, h.fired, h.midCall, h.rerrs = script, 0, nil, 0, map[string]int{}
-	h.armed, h.overBudget, h.cancel = true, false, cancel
+	h.armed, h.overBudget, h.call = true, false, ctx
 	h.mu.Unlock()
 	return ctx
 }
@@ -499,6 +629,8 @@ type c11CallObs struct {
 	MidCall    int            `json:"mid_call"`
 	RegionErrs map[string]int `json:"region_errors"`
 	OverBudget bool           `json:"over_request_budget,omitempty"`
+	CtxEnded   bool           `json:"context_ended_during_call,omitempty"`
+	CtxEndedAt int            `json:"context_ended_at_rpc,omitempty"`
 }
 
 func (h *c11RPC) disarm() c11CallObs {
@@ -506,10 +638,11 @@ func (h *c11RPC) disarm() c11CallObs {
 	defer h.mu.Unlock()
 	o := c11CallObs{Requests: h.n, Fired: h.fired, MidCall: h.midCall, RegionErrs: h.rerrs, OverBudget: h.overBudget}
 	h.script, h.fired, h.rerrs = nil, nil, map[string]int{}
-	if h.cancel != nil {
-		h.cancel()
+	if h.call != nil {
+		o.CtxEnded, o.CtxEndedAt = h.call.endedDuring()
+		h.call.end(context.Canceled, -1) // releases everything derived from it
 	}
-	h.armed, h.cancel = false, nil
+	h.armed, h.call = false, nil
 	return o
 }
 
@@ -529,8 +662,8 @@ func (h *c11RPC) SendRequest(ctx context.Context, addr string, req *tikvrpc.Requ
 	h.n++
 	if h.armed && idx >= c11RequestBudget {
 		h.overBudget = true
-		if h.cancel != nil {
-			h.cancel()
+		if h.call != nil {
+			h.call.end(context.Canceled, -1)
 		}
 		h.mu.Unlock()
 		return nil, context.Canceled
@@ -552,7 +685,22 @@ func (h *c11RPC) SendRequest(ctx context.Context, addr string, req *tikvrpc.Requ
 			h.mu.Unlock()
 		}
 	}
+	// the context discipline of the call this request belongs to
+	var endAfter *c11Ctx
+	if cc, ok := ctx.Value(c11CallKey{}).(*c11Ctx); ok && cc != nil {
+		i := int(cc.n.Add(1)) - 1
+		if cc.plan.during() && i == cc.plan.At {
+			if !cc.plan.Deliver {
+				cc.endByPlan(i)
+				return nil, cc.Err() // not delivered
+			}
+			endAfter = cc
+		}
+	}
 	resp, err := h.inner.SendRequest(ctx, addr, req, timeout)
+	if endAfter != nil {
+		endAfter.endByPlan(endAfter.plan.At) // executed and answered, but the caller's context has ended meanwhile
+	}
 	if err == nil && resp != nil && resp.Resp != nil {
 		if re, _ := resp.GetRegionError(); re == nil {
 			h.env.observePut(req, resp)
